@@ -8,6 +8,7 @@ import (
 	"os"
 	"runtime/debug"
 	"sort"
+	"strings"
 	"sync"
 	"time"
 
@@ -301,8 +302,8 @@ func runPath(p *Program, cfg *HarnessCfg, fn *ssa.Function, solver *Solver, pref
 }
 
 func trimRepo(s string) string {
-	if len(s) > 6 && s[:6] == "/repo/" {
-		return s[6:]
+	if strings.HasPrefix(s, repoRoot) {
+		return s[len(repoRoot):]
 	}
 	return s
 }
